@@ -16,6 +16,8 @@ def admissionGen (x : PMInput) : Except ErrKind (Int × String × Int × Int × 
   if ¬ (x.ndim ∈ pmFlatRanks ∨ x.ndim = pmNestedRank) then .error .value
   else if x.nMappingLists = 0 then .error .type
   else if decide (x.ndim = pmNestedRank) != x.nested then .error .type
+  else if ¬ (pmShapeRangeAxes.all (fun a => match shape[a]? with
+      | some d => decide (pmShapeRangeLo ≤ d ∧ d ≤ pmShapeRangeHi) | none => false) = true) then .error .value
   else if some x.nMappingLists ≠ shape[pmMappingCountAxis]? then .error .value
   else if some x.nPositions ≠ shape[pmPositionCountAxis]? then .error .value
   else
@@ -37,7 +39,18 @@ theorem admission_tie (x : PMInput) : admission x = admissionGen x := by
     simp [pmMappingCountAxis]
   have h4 : (x.nPositions ≠ x.n) ↔ (some x.nPositions ≠ [x.n, x.r, x.c, x.m][pmPositionCountAxis]?) := by
     simp [pmPositionCountAxis]
-  simp only [h1, h2, h3, h4]
+  have h5 : (¬ (1 ≤ x.r ∧ x.r ≤ 65535 ∧ 1 ≤ x.c ∧ x.c ≤ 65535)) ↔
+      ¬ (pmShapeRangeAxes.all (fun a => match [x.n, x.r, x.c, x.m][a]? with
+        | some d => decide (pmShapeRangeLo ≤ d ∧ d ≤ pmShapeRangeHi) | none => false) = true) := by
+    have e : (pmShapeRangeAxes.all (fun a => match [x.n, x.r, x.c, x.m][a]? with
+        | some d => decide (pmShapeRangeLo ≤ d ∧ d ≤ pmShapeRangeHi) | none => false) = true) ↔
+        (1 ≤ x.r ∧ x.r ≤ 65535 ∧ 1 ≤ x.c ∧ x.c ≤ 65535) := by
+      show ((decide (pmShapeRangeLo ≤ x.r ∧ x.r ≤ pmShapeRangeHi) &&
+          (decide (pmShapeRangeLo ≤ x.c ∧ x.c ≤ pmShapeRangeHi) && true)) = true) ↔ _
+      rw [Bool.and_true, Bool.and_eq_true, decide_eq_true_eq, decide_eq_true_eq, and_assoc]
+      exact Iff.rfl
+    rw [e]
+  simp only [h1, h2, h3, h4, h5]
   cases pmSyntaxAdmitted x.ts x.dtypeKind with
   | error e => rfl
   | ok r0 =>
